@@ -1232,6 +1232,12 @@ func (e *Env) evalCall(n SCall) Val {
 			}
 			gh := x.heapGet(e.st, "GH_hashed", "(Array Int String)")
 			return Val{T: Select(gh, Term{fmt.Sprintf("(ival %s)", h.T.S), "Int"}), Typ: types.Typ[types.String]}
+		case "bodyBytes":
+			// bodyBytes(req): the bytes the request built by http.NewRequestWithContext will send
+			// (what its body reader holds, when known)
+			v := e.eval(n.Args[0])
+			gb := x.heapGet(e.st, "GH_reqbody", "(Array Int String)")
+			return Val{T: Select(gb, v.T), Typ: types.Typ[types.String]}
 		case "ownCopy":
 			// ownCopy(v): the slice held in local variable v has a backing array that this function
 			// allocated itself (make, append to a nil literal, io.ReadAll): it is shared with nobody,
